@@ -179,7 +179,19 @@ unsafe impl GlobalAlloc for Audit {
                 }
             }
         }
-        let p = System.realloc(ptr, real, new_size);
+        // Every resize moves the block and poisons the old one (glibc shrinks in place, which hides pointers kept across a
+        // shrink_to_fit / realloc): a stale pointer then reads 0xDD bytes and its release is seen as a second release
+        let p = if ENABLED.load(Ordering::Relaxed) {
+            let np = System.alloc(Layout::from_size_align_unchecked(new_size.max(1), real.align()));
+            if !np.is_null() {
+                std::ptr::copy_nonoverlapping(ptr, np, real.size().min(new_size));
+                std::ptr::write_bytes(ptr, 0xDD, real.size());
+                System.dealloc(ptr, real);
+            }
+            np
+        } else {
+            System.realloc(ptr, real, new_size)
+        };
         if ENABLED.load(Ordering::Relaxed) {
             if !p.is_null() {
                 lock();
